@@ -27,7 +27,12 @@ func DeepCast(val Value, typ ast.Type, span errors.Span, allowCasts bool) (*Valu
 			}
 			return NewValueOption(innerCast), nil
 		}
-		return NewValueOption(&val), nil
+		// a `T` may be wrapped into a `?T`, but only if it really is a `T`
+		innerCast, i := DeepCast(val, typ.(ast.OptionType).Inner, span, allowCasts)
+		if i != nil {
+			return nil, i
+		}
+		return NewValueOption(innerCast), nil
 	}
 
 	switch val.Kind() {
